@@ -760,6 +760,10 @@ func ruleStatusFlow(c *Ctx, rule string) {
 	})
 	okClose := false
 	for _, call := range fins {
+		if len(call.Call.Args) < 3 {
+			c.fail(rule, w.Short(a.ClientAccept)+": close_stream case passes the frame's status and trailers", w.At(call), "the finishing function is not called with (status, trailers): the trailers of the close_stream frame no longer travel with the outcome that wins (unrecognised shape)")
+			continue
+		}
 		d1, d2 := desc(call.Call.Args[1]), desc(call.Call.Args[2])
 		if strings.Contains(d1, "status.FromProto(") {
 			r1, ch1 := fieldChain(firstArgOfInner(call.Call.Args[1], "google.golang.org/grpc/status.FromProto"))
